@@ -111,7 +111,7 @@ PROPS = {
     "C10": dict(
         pkg="c10",
         units=[rapid("TestProp", 400, 5000, race=True, memlimit="6GiB", shrinktime="20s"), rapid("TestPropLegacy", 200, 2500, race=True, memlimit="6GiB", shrinktime="20s"),
-               rapid("TestPropTogether", 24, 400, race=True, memlimit="6GiB", shrinktime="20s"), rapid("TestPropTogetherLegacy", 12, 200, race=True, memlimit="6GiB", shrinktime="20s")],
+               rapid("TestPropTogether", 24, 60, race=True, memlimit="6GiB", shrinktime="20s"), rapid("TestPropTogetherLegacy", 12, 30, race=True, memlimit="6GiB", shrinktime="20s")],
         assumptions=COMMON_ASSUME + ["the Go race detector (go1.23.5, -race) reports unsynchronised conflicting accesses that execute during a workload; schedules are sampled, not enumerated",
                                      "the expected result of each call is the one computed sequentially in the same process before the goroutines start (C09 separately checks that results do not depend on history)",
                                      "the staged legacy root package is built from /repo's working tree as module github.com/evanphx/json-patch"],
